@@ -5,6 +5,7 @@ import Mathlib.Tactic.Linarith
 import Mathlib.Tactic.NormNum
 import Mathlib.Tactic.FieldSimp
 import Mathlib.Tactic.Positivity
+import Mathlib.Algebra.Group.Defs
 
 /-
   OSq.Proofs.Compose — the composition of two Bloch-sphere rotations (`composeRot`, Python
@@ -31,6 +32,9 @@ import Mathlib.Tactic.Positivity
   * `compose_error_diff_qubits`, `compose_ok_same_qubit` (any `α`), `compose_error_cases`, `compose_ok_of_crisp`
                                 the error branch: different qubits ⇒ `ValueError`; for unit axes nothing else errors
                                 except `mkAxis` of an all-zero *rounded* axis, impossible when rounding is exact.
+  * `PQuat`, `Rot.op`, `compose_crisp_op`  quaternions modulo sign form a monoid (operators up to the global phase −1);
+                                under the crisp hypotheses `(composeRot a b).op = a.op * b.op` in both branches — the
+                                per-composition hypothesis of `MergeAbs.Crisp` (file `MergeAbstract`) for `ρ := Rot.op`.
   * `compose_name` (any `α`)    the result keeps `b.nm` if `a` tests identity, `a.nm` if `b` (not `a`) does, else `none`
                                 (the fresh identity rotation of the identity branch is anonymous).
 -/
@@ -598,6 +602,110 @@ example : composeRot (1 / 10 ^ 7 : ℝ) exX exX = .ok (identityRot 0) ∧
   rw [composeRot_real _ exX exX exX_unit exX_unit rfl, if_pos (by rw [hs]; norm_num)]
   rfl
 
+/-! ### Operators up to the global phase `−1`: quaternions modulo sign, as a monoid -/
+
+namespace Quat
+theorem neg_neg' (p : Quat) : -(-p) = p := by ext <;> simp [neg_def, neg]
+theorem neg_mul' (p q : Quat) : (-p) * q = -(p * q) := by
+  ext <;> simp only [neg_def, neg, mul_def, mul] <;> ring
+theorem mul_neg' (p q : Quat) : p * (-q) = -(p * q) := by
+  ext <;> simp only [neg_def, neg, mul_def, mul] <;> ring
+
+/-- equal up to sign -/
+def sgnRel (p q : Quat) : Prop := p = q ∨ p = -q
+
+theorem sgnRel_equiv : Equivalence sgnRel where
+  refl := fun p => Or.inl rfl
+  symm := by
+    rintro p q (h | h)
+    · exact Or.inl h.symm
+    · right; rw [h, neg_neg']
+  trans := by
+    rintro p q r (h | h) (h' | h')
+    · exact Or.inl (h.trans h')
+    · exact Or.inr (h.trans h')
+    · right; rw [h, h']
+    · left; rw [h, h', neg_neg']
+
+instance sgnSetoid : Setoid Quat := ⟨sgnRel, sgnRel_equiv⟩
+end Quat
+
+/-- quaternions modulo sign (`SU(2)/±1`-style operators: a rotation operator up to the global phase `−1`) -/
+def PQuat : Type := Quotient Quat.sgnSetoid
+
+namespace PQuat
+def mk (p : Quat) : PQuat := Quotient.mk _ p
+
+theorem mk_eq_iff (p q : Quat) : mk p = mk q ↔ (p = q ∨ p = -q) := by
+  constructor
+  · intro h; exact Quotient.exact h
+  · intro h; exact Quotient.sound h
+
+def mul : PQuat → PQuat → PQuat :=
+  Quotient.map₂ (· * ·) (by
+    rintro p p' (hp | hp) q q' (hq | hq)
+    · left; rw [hp, hq]
+    · right; rw [hp, hq, Quat.mul_neg']
+    · right; rw [hp, hq, Quat.neg_mul']
+    · left; rw [hp, hq, Quat.neg_mul', Quat.mul_neg', Quat.neg_neg'])
+
+instance : Monoid PQuat where
+  mul := mul
+  one := mk 1
+  mul_assoc := by
+    rintro ⟨a⟩ ⟨b⟩ ⟨c⟩
+    exact congrArg mk (Quat.mul_assoc' a b c)
+  one_mul := by
+    rintro ⟨a⟩
+    exact congrArg mk (Quat.one_mul' a)
+  mul_one := by
+    rintro ⟨a⟩
+    exact congrArg mk (Quat.mul_one' a)
+
+theorem mk_mul (p q : Quat) : mk p * mk q = mk (p * q) := rfl
+theorem one_def : (1 : PQuat) = mk 1 := rfl
+end PQuat
+
+/-- the operator (up to global phase) denoted by a rotation record; the `phase` field is a global phase -/
+noncomputable def Rot.op (r : Rot ℝ) : PQuat := PQuat.mk r.quat
+
+theorem identityRot_op (q : Int) : (identityRot q : Rot ℝ).op = 1 := by
+  rw [Rot.op, identityRot_quat]; rfl
+
+/-- **compose_crisp, operator form.** Under the crisp hypotheses the result of `composeRot a b` denotes the
+    product `a.op * b.op` (= `U_a · U_b` up to global phase) — in both branches.  This is the per-composition
+    hypothesis of `MergeAbs.Crisp` for `ρ := Rot.op`. -/
+theorem compose_crisp_op (atol : ℝ) (hatol : 0 < atol) (a b r : Rot ℝ)
+    (ha : UnitVec a.axis) (hb : UnitVec b.axis)
+    (h : composeRot atol a b = .ok r)
+    (hcrisp : |Real.sin (cTheta a b / 2)| < atol → Real.sin (cTheta a b / 2) = 0)
+    (hround : ¬ |Real.sin (cTheta a b / 2)| < atol →
+      roundTo s7 (cAxis a b).1 = (cAxis a b).1 ∧ roundTo s7 (cAxis a b).2.1 = (cAxis a b).2.1 ∧
+      roundTo s7 (cAxis a b).2.2 = (cAxis a b).2.2 ∧
+      roundTo s7 (a.phase + b.phase) = a.phase + b.phase) :
+    r.op = a.op * b.op ∧ UnitVec r.axis := by
+  obtain ⟨_, _, hc | hc⟩ := compose_crisp atol hatol a b r ha hb h hcrisp hround
+  · obtain ⟨_, _, hr, hq, hm⟩ := hc
+    refine ⟨?_, by rw [hr]; simp [identityRot, UnitVec]⟩
+    rw [Rot.op, Rot.op, Rot.op, PQuat.mk_mul, hq, PQuat.mk_eq_iff]
+    rcases hm with hm | hm
+    · left; rw [hm]
+    · right; rw [hm, Quat.neg_neg']
+  · obtain ⟨_, _, _, hu, hq, _⟩ := hc
+    refine ⟨?_, hu⟩
+    rw [Rot.op, Rot.op, Rot.op, PQuat.mk_mul, PQuat.mk_eq_iff]
+    exact hq
+
+/-- the operator form on the concrete pair of `exX`, `exZ` is covered by the example above; the monoid is
+    non-trivial: `X` and `Z` half-turns are different operators -/
+example : exX.op ≠ exZ.op := by
+  intro h
+  rcases (PQuat.mk_eq_iff _ _).mp h with h | h
+  · have := congrArg Quat.x h
+    simp [Rot.quat, quat, exX, exZ, Real.sin_pi_div_two] at this
+  · have := congrArg Quat.x h
+    simp [Rot.quat, quat, exX, exZ, Real.sin_pi_div_two, Quat.neg_def, Quat.neg] at this
+
 #print axioms compose_pre_rounding
 #print axioms compose_is_product_a_then_b_first
 #print axioms roundTo_error
@@ -606,5 +714,6 @@ example : composeRot (1 / 10 ^ 7 : ℝ) exX exX = .ok (identityRot 0) ∧
 #print axioms compose_error_cases
 #print axioms compose_error_diff_qubits
 #print axioms compose_name
+#print axioms compose_crisp_op
 
 end OSq
